@@ -19,7 +19,7 @@ from . import common
 PROPERTY = "C03"
 LEVEL = "model_checking"
 RULE = (
-    "catalogue grammars (assgn, list, block, null incl. both epsilon encodings, signed, tags, 32-child wide row) x all closed "
+    "catalogue grammars (assgn, list, block, null incl. both epsilon encodings, signed, tags, 32-child wide row, 30 structured cells) x all closed "
     "trees up to a depth/node bound x all formulas of the typed universe (<=2 tree quantifiers, match expressions with 0-2 "
     "bindings and optionals, numeric quantifiers with count, all structural predicates, =/str.len/str.to.int atoms, negation, "
     "and/or) x entry points {evaluate(AST), evaluate(text), numeric-quantifier wrapping, ISLaSolver.check}; a schema is a formula "
@@ -34,11 +34,11 @@ ASSUMPTIONS = [
 ]
 TASKS_PER_CHILD = 6
 
-GRAMS = ["assgn", "list", "block", "null", "signed", "tags", "wide"]
+GRAMS = ["assgn", "list", "block", "null", "signed", "tags", "wide", "wide2"]
 
 
 def _profile(name, tier):
-    if name == "wide":
+    if name in ("wide", "wide2"):
         return "small"
     return "std" if tier == "thorough" else "std"
 
@@ -67,9 +67,31 @@ def _wide_forms():
     return F
 
 
+def _wide2_forms():
+    """30 structured cells: quantifiers nested IN a cell (also the cells at index >= 27), with and without match expressions"""
+    q = lambda k, T, v, m, i, b: (k, T, v, m, i, b)
+    eq = lambda v, s: ("smt", ["=", ["v", v], ["s", s]])
+    F = []
+    for k1, k2 in itertools.product(("forall", "exists"), repeat=2):
+        F.append(q(k1, "<c>", "c", None, "start", q(k2, "<k>", "k", None, "c", eq("k", "a"))))
+        F.append(q(k1, "<c>", "c", None, "start", q(k2, "<v>", "w", None, "c", eq("w", "1"))))
+        F.append(q(k1, "<c>", "c", None, "start", q(k2, "<p>", "p", None, "c", q(k2, "<k>", "k", None, "p", eq("k", "a")))))
+        F.append(q(k1, "<p>", "p", None, "start", q(k2, "<v>", "w", None, "p", ("not", eq("w", "0")))))
+        F.append(q(k1, "<row>", "r", None, "start", q(k2, "<c>", "c", None, "r", q(k1, "<v>", "w", None, "c", eq("w", "0")))))
+        m = (("b", "<k>", "mk"), ("t", "="), ("b", "<v>", "mv"))
+        F.append(q(k1, "<c>", "c", None, "start", q(k2, "<p>", "p", m, "c", ("or", eq("mk", "a"), eq("mv", "1")))))
+    F.append(q("forall", "<c>", "c", None, "start", q("forall", "<k>", "k", None, "c", q("forall", "<v>", "w", None, "c", ("pred", "before", (), "k", "w")))))
+    F.append(q("exists", "<c>", "c", None, "start", q("exists", "<k>", "k", None, "c", q("exists", "<v>", "w", None, "c", ("and", ("pred", "before", (), "k", "w"), ("and", eq("k", "b"), eq("w", "0")))))))
+    F.append(q("forall", "<c>", "c", None, "start", q("exists", "<k>", "k", None, "c", ("pred", "inside", (), "k", "c"))))
+    F.append(q("exists", "<c>", "c", None, "start", ("and", q("exists", "<k>", "k", None, "c", eq("k", "b")), q("exists", "<v>", "w", None, "c", eq("w", "0")))))
+    return F
+
+
 def _forms(name, tier):
     if name == "wide":
         return _wide_forms()
+    if name == "wide2":
+        return _wide2_forms()
     F = common.formulas_of(name, _profile(name, tier))
     if tier == "quick" and len(F) > 1400:
         # quick: every formula class is kept, the long two-quantifier product is thinned deterministically
@@ -94,7 +116,7 @@ def chunks(tier, seed):
     out = []
     for name in GRAMS:
         F = _forms(name, tier)
-        per = 40 if name != "wide" else 12
+        per = 40 if name not in ("wide", "wide2") else 12
         for i in range(0, len(F), per):
             out.append(dict(g=name, lo=i, hi=min(len(F), i + per), tier=tier, shadow=False))
         if name in ("assgn", "list"):
@@ -283,7 +305,7 @@ def run_chunk(chunk):
         try:
             with time_cap(240):
                 run_formula(r, gname, g, cg, f, trees, entries)
-                if (gi % 3 == 0 or _has_root_arg(f)) and f[0] not in ("forall_int", "exists_int") and gname != "wide":
+                if (gi % 3 == 0 or _has_root_arg(f)) and f[0] not in ("forall_int", "exists_int") and gname not in ("wide", "wide2"):
                     kind = "exists" if gi % 2 == 0 else "forall"
                     fw = wrap_numq(f, needles[gi % len(needles)], kind)
                     run_formula(r, gname, g, cg, fw, trees, ["eval"] + (["check"] if gi % 9 == 0 else []))
